@@ -297,7 +297,18 @@ pub fn gen_script(t: &mut Tape, gates: &Gates, max_len: usize) -> Script {
                 for _ in 0..reps {
                     let id = request_id(t, next_id, "s");
                     next_id += 1;
-                    s.messages.push(lsp_semantic_tokens(id.clone(), uri));
+                    let mut msg = lsp_semantic_tokens(id.clone(), uri);
+                    // (the optional members every request of this kind may carry: a work-done token and
+                    // a partial-result token, each a string or a number - the request still has one answer)
+                    if t.ratio(1, 4) {
+                        if t.flag() {
+                            msg["params"]["workDoneToken"] = if t.flag() { json!(format!("wd-{}", next_id)) } else { json!(next_id) };
+                        }
+                        if t.flag() {
+                            msg["params"]["partialResultToken"] = if t.flag() { json!(format!("pr-{}", next_id)) } else { json!(7000 + next_id) };
+                        }
+                    }
+                    s.messages.push(msg);
                     s.requests.push((id, "textDocument/semanticTokens/full".into()));
                     s.kinds.push("semanticTokens");
                 }
